@@ -139,6 +139,12 @@ var ruleErrFirst = &Rule{
 									if isNil, _ := nilFact(efs, ev); !isNil {
 										// … or the status that travels with the error is known good
 										good := false
+										// … or the ok flag that is only set together with a nil error
+										for _, ef := range efs {
+											if ex, ok := ef.Cond.(*ssa.Extract); ok && ex.Tuple == ssa.Value(c) && ef.Truth && okImpliesNoError(c.Call.StaticCallee(), ex.Index) {
+												good = true
+											}
+										}
 										if j, kind := p.statusAmongResults(c.Call.StaticCallee()); kind != "" {
 											if sv := extractOf(c, j); sv != nil && p.statusFact(efs, sv, p.badConstFor(kind)) == -1 {
 												good = true
